@@ -486,6 +486,8 @@ func (s *Sel) checkShutdownExtras(c *Ctx) {
 	s.checkOrderedOrderComplete(c)
 	s.checkRefusalMatchesPendingStop(c, "refusal-matches-pending-stop")
 	s.checkDaemonRelease(c, "daemon-released-after-configured-stop")
+	s.checkProberLifecycle(c, "prober-lifecycle")
+	s.checkTerminalStopsProbers(c, "terminal-stops-probers")
 }
 
 // checkFailedShutdownCommandKills (C03, C06, C08): a failing shutdown command escalates to SIGKILL on every path.
@@ -599,6 +601,37 @@ func (s *Sel) checkOrderedOrderComplete(c *Ctx) {
 				okAll = true
 			}
 		}
+	}
+	// the traversal itself visits every configured process: it does not filter on Disabled / IsForeground
+	if withProc != nil {
+		filt := ""
+		// the traversal's own code: the method and the Project methods it calls statically (not the callback)
+		trav := []*ssa.Function{withProc}
+		for i := 0; i < len(trav); i++ {
+			AllInstrs(trav[i], func(in ssa.Instruction) {
+				if call, ok := in.(*ssa.Call); ok {
+					if sc := call.Call.StaticCallee(); sc != nil && len(sc.Blocks) > 0 && recvIs(sc, p.Named("types", "Project")) {
+						trav = appendUniq(trav, sc)
+					}
+				}
+			})
+		}
+		for _, tf := range trav {
+			AllInstrs(tf, func(in ssa.Instruction) {
+				for _, fld := range []*types.Var{s.FDisabled, s.FIsForeground} {
+					if IsLoadOf(in, fld) {
+						filt = fld.Name()
+					}
+					if call, ok := in.(*ssa.Call); ok {
+						if sc := call.Call.StaticCallee(); sc != nil && len(sc.Blocks) > 0 && recvIs(sc, s.ProcConf) && len(FindInstrs(sc, func(x ssa.Instruction) bool { return IsLoadOf(x, fld) })) > 0 {
+							filt = fld.Name()
+						}
+					}
+				}
+			})
+		}
+		c.Touch(withProc)
+		c.Check(filt == "", rAll, "traversal-unfiltered", FirstPos(p, withProc), "the traversal visits every configured process", "the dependency-order traversal skips processes by their "+filt+" flag: a disabled or foreground process that was started on request is registered but never enters the ordered shutdown list, so it is neither stopped nor awaited")
 	}
 	c.Check(okAll, rAll, p.FuncKey(shut), p.InstrPos(where), "every registered instance enters the ordered list", "the ordered shutdown list is not built by looking every process of the traversal up in runningProcesses (it goes through a filtered helper or an extra condition): a registered instance that the filter drops is neither stopped nor awaited, survives the shutdown and Run() hangs")
 }
